@@ -171,6 +171,10 @@ struct G<'a> {
     sent_md: bool,
     sent_msd: BTreeSet<u64>,
     sent_ms: [bool; 2],
+    /// C02 ghost: streams whose last write was refused (Blocked) and that have not been reported Writable since;
+    /// directions whose last open was refused and that have not been reported Available since
+    c02_blocked: BTreeSet<u64>,
+    c02_open_blocked: [bool; 2],
 }
 
 impl G<'_> {
@@ -217,6 +221,7 @@ impl G<'_> {
             }
         }
         self.invariants(line, &prev, &nv);
+        self.c02_notified(&words, &prev, &nv);
         Some(nv)
     }
 
@@ -289,6 +294,76 @@ impl G<'_> {
                     self.rfc.diverged = true;
                 }
                 self.fail(key, format!("{line}: RFC verdict {errs:?}, implementation accepts (state {}; {facts})", if unchanged { "unchanged" } else { "changed" }));
+            }
+        }
+    }
+
+    /// C02 (no lost application event, no withheld credit at the stream layer): an application that was refused and
+    /// polls until nothing is reported must have been told once the PEER'S FRAMES (ghost credit, not the view) make
+    /// room. Keys `C02-writable-lost`, `C02-available-lost`.
+    fn c02_notified(&mut self, w: &[&str], prev: &View, v: &View) {
+        let id: Option<u64> = w.get(1).and_then(|x| x.parse().ok());
+        match w[0] {
+            "write" => {
+                if let Some(id) = id {
+                    if v.result == "err Blocked" && !prev.closed() {
+                        self.c02_blocked.insert(id);
+                    } else {
+                        self.c02_blocked.remove(&id);
+                    }
+                }
+            }
+            "open" => {
+                let d = if w.get(1) == Some(&"bi") { 0 } else { 1 };
+                self.c02_open_blocked[d] = v.result == "none" && !prev.closed();
+            }
+            // the half is closed by the application, or the peer stopped it (the writer is told `Stopped` instead)
+            "finish" | "reset" | "stopsend" | "stopped" => {
+                if let Some(id) = id {
+                    self.c02_blocked.remove(&id);
+                }
+            }
+            "poll" => {
+                let mut it = v.result.split(' ');
+                match it.next() {
+                    Some("Writable") => {
+                        if let Some(id) = it.next().and_then(|x| x.parse::<u64>().ok()) {
+                            self.c02_blocked.remove(&id);
+                        }
+                    }
+                    Some("Available") => {
+                        if let Some(d) = it.next().and_then(|x| x.parse::<usize>().ok()) {
+                            self.c02_open_blocked[d.min(1)] = false;
+                        }
+                    }
+                    Some("none") if !v.closed() => {
+                        // budget at connection level: the peer's MAX_DATA (ghost) against what was written, and the
+                        // local send window
+                        let conn = self.peer_max_data.saturating_sub(v.n("ds")).min(v.n("sw").saturating_sub(v.n("ua")));
+                        for id in self.c02_blocked.clone() {
+                            let Some(limit) = self.peer_stream_limit.get(&id).cloned() else { continue };
+                            let (Some(off), Some(st)) = (v.sn(id, "off"), v.ss(id, "st")) else { continue };
+                            let stopped = v.ss(id, "sr").map_or(false, |x| x != "-");
+                            if conn > 0 && limit > off && st == "R" && !stopped && !self.closed_halves.contains(&id) {
+                                self.fail("C02-writable-lost", format!("write on stream {id} was refused (Blocked); now the peer's limits leave room (stream {limit} > offset {off}, connection budget {conn}) and poll reports nothing: no Writable {id}"));
+                            }
+                        }
+                        for d in 0..2 {
+                            if self.c02_open_blocked[d] && self.peer_max_streams[d] > v.two("nx")[d] {
+                                self.fail("C02-available-lost", format!("open {} was refused; now the peer's MAX_STREAMS {} > {} opened and poll reports nothing: no Available", ["bi", "uni"][d], self.peer_max_streams[d], v.two("nx")[d]));
+                            }
+                        }
+                    }
+                    _ => {}
+                }
+            }
+            // frames and calls that leave the streams in place
+            "maxdata" | "maxsd" | "maxstreams" | "ack" | "lost" | "transmit" | "stream" | "read" | "rst" | "rstack" | "rreset"
+            | "stop" | "accept" | "prio" | "ctrl" | "view" | "sendwin" | "recvwin" | "maxconc" | "cansend" | "canflow" | "qmsi" | "pend" => {}
+            // a new connection, new transport parameters, 0-RTT rejection, connection close: everything starts again
+            _ => {
+                self.c02_blocked.clear();
+                self.c02_open_blocked = [false, false];
             }
         }
     }
@@ -943,16 +1018,21 @@ impl G<'_> {
     }
 
     fn poll(&mut self) {
-        let Some(v) = self.op("poll") else { return };
-        let mut it = v.result.split(' ');
-        match it.next() {
-            Some("Stopped") => {
-                let id: u64 = it.next().and_then(|x| x.parse().ok()).unwrap_or(0);
-                if !self.stopped_events.insert(id) {
-                    self.fail("C11-stopped-twice", format!("second Stopped for {id}"));
+        // half of the time the application polls until nothing is reported (the C02 oracles judge that point)
+        let rounds = if self.rng.chance(1, 2) { 24 } else { 1 };
+        for _ in 0..rounds {
+            let Some(v) = self.op("poll") else { return };
+            let mut it = v.result.split(' ');
+            match it.next() {
+                Some("Stopped") => {
+                    let id: u64 = it.next().and_then(|x| x.parse().ok()).unwrap_or(0);
+                    if !self.stopped_events.insert(id) {
+                        self.fail("C11-stopped-twice", format!("second Stopped for {id}"));
+                    }
                 }
+                Some("none") => break,
+                _ => {}
             }
-            _ => {}
         }
     }
 
@@ -1641,6 +1721,8 @@ pub fn streams(rng: &mut Rng, r: &mut Runner, maxops: usize) {
         peer_max_data: 0,
         peer_max_streams: [0, 0],
         peer_stream_limit: BTreeMap::new(),
+        c02_blocked: BTreeSet::new(),
+        c02_open_blocked: [false, false],
         params: [0; 6],
         after_rejection: false,
         max_rw: 0,
